@@ -22,12 +22,22 @@ Design rules (all conservative = they can only ADD atoms / edges):
   * ParamWrite: assignment to an attribute that is somewhere assigned an nn.Parameter; `.data =`;
     in-place methods (`add_`, `copy_`, ...), subscript/augmented assignment or `out=` whose
     receiver is ROOTED at a parameter (through attributes, subscripts, view-like methods, local
-    aliases, `.parameters()`, `getattr(x, <non-constant>)`); passing a parameter-rooted value to a
-    package function that mutates one of its arguments; `load_state_dict`; `.step()`;
+    aliases, `.parameters()`, `getattr(x, <non-constant>)`); binding a parameter-rooted actual argument
+    (positional or keyword) to a formal parameter that the callee mutates in place (per-parameter mutation
+    summaries, fixpoint over the call graph; star-args are bound to every mutated formal);
+    `load_state_dict`; `.step()`; a plain subscript store `d[k] = v` into a name that is only ever bound to a
+    fresh dict / list (`{...}`, `dict(...)`, comprehension, `.state_dict()`, `.copy()` of those) is a container
+    update, not a tensor write (augmented stores `d[k] += v` and stores through an element `d[k][i] = v` still count);
     the result of `torch.f(..., out=o)` is rooted at `o` (so `torch.matmul(h, W.data, out=out).add_(b)`
     is NOT a parameter write: the parameter is only an argument);
   * SetIteration: a set-typed expression used anywhere but in a comparison / membership test /
     len() / sorted() / bool test / set algebra / plain assignment;
+  * `getattr(obj, name)(...)` with a non-constant name is dynamic dispatch: if `name` is a parameter of a PRIVATE
+    function all of whose call sites pass string constants, those names are used (by-name edges); otherwise the call
+    may reach EVERY function of the package; a non-called dynamic `getattr` may run every property getter;
+  * operation classes: private helpers (leading underscore, except a short explicit list) are not roots of a class;
+    they are covered through the closure of the public operations that reach them; unclassified PUBLIC methods of
+    state / RBM classes default to the read-only class `eval` (fail closed);
   * statements or expressions the translator does not know give UnknownModule "construct:<X>".
 
 User-supplied callables (optimizer / scheduler classes, metric functions, LambdaCallback
@@ -36,7 +46,7 @@ parameter or an attribute that stores one emits nothing (stated in the check's A
 """
 import ast, os, sys, hashlib, builtins, json
 
-ATOMS = ["RngTorch", "RngNumpy", "RngPython", "Clock", "ClockTimer", "Environ", "SetIteration",
+ATOMS = ["RngTorch", "RngReseed", "RngNumpy", "RngPython", "Clock", "ClockTimer", "Environ", "SetIteration",
          "ParamWrite", "FileWrite"]          # + UnknownModule <name>
 
 
@@ -48,10 +58,11 @@ def U(name):
 PURE_MODULES = {"math", "itertools", "functools", "warnings", "abc", "csv", "pathlib", "inspect",
                 "collections", "tqdm", "operator", "copy", "typing", "numbers", "string", "re",
                 "enum", "dataclasses", "contextlib", "builtins", "types", "textwrap", "json"}
+TORCH_RESEED = {"manual_seed", "manual_seed_all", "seed", "seed_all", "set_rng_state", "set_rng_state_all",
+                "Generator", "default_generator", "fork_rng", "random"}       # "random" = the torch.random module
 TORCH_RNG = {"randn", "rand", "randint", "randperm", "bernoulli", "normal", "multinomial", "poisson",
-             "rand_like", "randn_like", "randint_like", "manual_seed", "manual_seed_all", "seed", "seed_all",
-             "initial_seed", "get_rng_state", "set_rng_state", "get_rng_state_all", "set_rng_state_all",
-             "random", "Generator", "default_generator", "fork_rng",
+             "rand_like", "randn_like", "randint_like",
+             "initial_seed", "get_rng_state", "get_rng_state_all",
              "dropout", "dropout1d", "dropout2d", "dropout3d", "alpha_dropout", "feature_alpha_dropout",
              "Dropout", "Dropout1d", "Dropout2d", "Dropout3d", "AlphaDropout", "FeatureAlphaDropout",
              "rrelu", "RReLU", "gumbel_softmax", "init", "binomial", "rand_", "randn_",
@@ -84,6 +95,14 @@ FRESH_METHODS = {"clone", "tolist", "item", "numel", "size", "dim", "sum", "mean
 RNG_METHODS = {"sample", "rsample", "sample_n", "random_", "uniform_", "normal_", "bernoulli_", "exponential_",
                "geometric_", "cauchy_", "log_normal_", "bernoulli", "multinomial"}
 PARAMWRITE_METHODS = {"load_state_dict", "step", "register_parameter"}
+RESEED_METHODS = {"manual_seed", "set_state", "set_rng_state", "seed"}      # Generator.manual_seed, RandomState.set_state ...
+# nn.Module methods that rewrite every parameter of the module (dtype / device casts, apply)
+MODULE_CAST_METHODS = {"float", "double", "half", "bfloat16", "type", "to", "cuda", "cpu", "xpu", "apply", "_apply",
+                       "to_empty", "requires_grad_", "share_memory"}
+# external functions without a trailing underscore that write into (some of) their arguments
+EXT_MUTATORS = {"vector_to_parameters", "copyto", "put", "place", "putmask", "fill_diagonal", "put_along_axis",
+                "clip_grad_norm", "clip_grad_value"}
+STAT_METHODS = {"stat", "lstat", "getmtime", "getatime", "getctime"}
 FILEWRITE_METHODS = {"writerow", "writerows", "writeheader", "write", "writelines", "mkdir", "touch", "unlink",
                      "write_text", "write_bytes", "savefig", "tofile", "dump", "rmdir", "rename"}
 INPLACE_EXTRA = {"__setitem__", "__iadd__", "__isub__", "__imul__", "__itruediv__", "__delitem__"}
@@ -139,6 +158,11 @@ class Fn:
         self.all_params = set()
         self.own_mutable_params = set()
         self.scope_locals = set()
+        self.is_static = False
+        self.is_property = False
+        self.returns = set()         # markers {"PARAM", "MODULE"}: what a returned value may alias
+        self.vararg = None
+        self.kwarg = None
 
     def add(self, atom, line, why):
         if atom not in self.atoms:
@@ -178,6 +202,13 @@ class Translator:
         self.known_attrs = _known_pure_attrs()
         self.errors = []
         self.digest = hashlib.sha1()
+        self.alias_attrs = set()    # attributes that are somewhere assigned a parameter-rooted value (x.a = self.weights)
+        self.module_attrs = set()   # attributes that hold an nn.Module of the package (rbm_am, rbm_ph, ...)
+        self.set_attrs = set()      # attributes that are somewhere assigned a set
+        self.visitors = {}
+        self.any_method = None      # pseudo-nodes, created in load()
+        self.any_property = None
+        self.call_sites = {}        # simple callee name -> [ast.Call]
 
     # ---------------------------------------------------------------- loading
     def load(self):
@@ -210,6 +241,16 @@ class Translator:
             for c in m.classes.values():
                 self.resolve_bases(c)
         self.collect_param_attrs()
+        root_mod = self.mods[self.package]
+        self.any_method = Fn(self.package + ".<any-method (dynamic getattr call)>", root_mod, None, None, kind="toplevel")
+        self.any_property = Fn(self.package + ".<any-property (dynamic getattr)>", root_mod, None, None, kind="toplevel")
+        for m in self.mods.values():
+            for node in ast.walk(m.tree):
+                if isinstance(node, ast.Call):
+                    f = node.func
+                    nm = f.id if isinstance(f, ast.Name) else (f.attr if isinstance(f, ast.Attribute) else None)
+                    if nm:
+                        self.call_sites.setdefault(nm, []).append(node)
 
     def rel_import(self, m, level, module):
         base = m.name.split(".")
@@ -287,8 +328,12 @@ class Translator:
         f.all_params = set(f.params) | {x.arg for x in a.kwonlyargs}
         if a.vararg:
             f.all_params.add(a.vararg.arg)
+            f.vararg = a.vararg.arg
         if a.kwarg:
             f.all_params.add(a.kwarg.arg)
+            f.kwarg = a.kwarg.arg
+        f.is_static = any(isinstance(d, ast.Name) and d.id == "staticmethod" for d in node.decorator_list)
+        f.is_property = any(isinstance(d, ast.Name) and d.id == "property" for d in node.decorator_list)
         self.fns.append(f)
         self.by_name.setdefault(node.name, []).append(f)
         # nested functions / classes
@@ -407,6 +452,16 @@ class Translator:
                 ok = False
         return out, ok
 
+    def is_module_class(self, c):
+        """does class c derive (through package classes) from torch.nn.Module?"""
+        cache = self.__dict__.setdefault("_module_class_cache", {})
+        if c.qual not in cache:
+            anc, _ok = self.ancestors(c)
+            cache[c.qual] = any(kind == "ext" and b in ("torch.nn.Module", "torch.nn.modules.module.Module",
+                                                          "torch.nn.modules.Module")
+                                for cc in [c] + anc for kind, b in cc.bases)
+        return cache[c.qual]
+
     @staticmethod
     def attr_chain(e):
         attrs = []
@@ -453,6 +508,8 @@ class Translator:
                 return
             if any(p in TORCH_RNG or p == "distributions" for p in rest):
                 fn.add("RngTorch", line, why)
+            if any(p in TORCH_RESEED for p in rest):
+                fn.add("RngReseed", line, why)
             if any(p in UNINIT for p in rest):
                 fn.add(U("torch.empty"), line, why + " (uninitialised memory)")
             if rest and rest[-1] in TORCH_FILEWRITE:
@@ -469,6 +526,9 @@ class Translator:
         elif top in ("time", "datetime"):
             fn.add("ClockTimer" if fn.module.relpath.replace(os.sep, "/").endswith("callbacks/timer.py") else "Clock", line, why)
         elif top == "os":
+            if rest[:1] == ["path"] and rest[-1] in STAT_METHODS:
+                fn.add("Clock", line, why)
+                return
             if not rest or rest[0] == "path" or rest[0] in ("sep", "linesep", "PathLike", "fspath", "devnull"):
                 return
             if rest[0] in OS_ENV:
@@ -493,11 +553,27 @@ class Translator:
 
     # ---------------------------------------------------------------- per-function analysis
     def analyse(self):
-        for f in list(self.fns):
-            FnVisitor(self, f).run()
+        visitors = [FnVisitor(self, f) for f in list(self.fns)]
+        for v in visitors:
+            self.visitors[v.fn] = v
+            v.prepare()
+        for _round in range(10):         # interprocedural fixpoint: taint, return-value summaries, alias attributes
+            changed = False
+            for v in visitors:
+                if v.fn.node is not None:
+                    v.retaint()
+                    changed = v.update_summaries() or changed
+            if not changed:
+                break
+        for v in visitors:
+            v.emit()
         # implicit dunder methods: every function may reach them
         dunders = [f for f in self.fns if f.kind == "function" and f.simple.startswith("__") and f.simple.endswith("__")
                    and f.simple not in ("__init__", "__new__")]
+        self.any_method.callees = {f for f in self.fns if f.kind == "function"}
+        self.any_property.callees = {f for f in self.fns if f.kind == "function" and f.is_property}
+        self.fns.append(self.any_method)
+        self.fns.append(self.any_property)
         implicit = Fn(self.package + ".<implicit-dunder-methods>", self.mods[self.package], None, None, kind="toplevel")
         implicit.callees = set(dunders)
         self.fns.append(implicit)
@@ -510,17 +586,18 @@ class Translator:
         while changed:
             changed = False
             for f in self.fns:
-                for cands, roots, line in f.pending_arg_mut:
-                    if any(c.mutates for c in cands):
-                        if "PARAM" in roots and "ParamWrite" not in f.atoms:
-                            f.add("ParamWrite", line, "parameter passed to a function that mutates an argument")
-                            changed = True
-                        own = (roots & f.own_mutable_params) - f.mutated_roots
-                        if own:
-                            f.mutated_roots |= own
-                            if not f.mutates:
-                                f.mutates = True
-                            changed = True
+                for cands, binding, line in f.pending_arg_mut:
+                    roots = set()
+                    for c, offset in cands:
+                        roots |= bound_mutated_roots(c, offset, binding)
+                    if "PARAM" in roots and "ParamWrite" not in f.atoms:
+                        f.add("ParamWrite", line, "parameter-rooted value bound to a formal parameter that the callee mutates in place")
+                        changed = True
+                    own = (roots & f.own_mutable_params) - f.mutated_roots
+                    if own:
+                        f.mutated_roots |= own
+                        f.mutates = True
+                        changed = True
         for name, why in self.errors:
             self.mods[name].toplevel.add(U("construct:" + why), 0, why)
         for i, f in enumerate(self.fns):
@@ -528,55 +605,101 @@ class Translator:
 
     # ---------------------------------------------------------------- operation classes
     def op_classes(self):
-        ops = {k: [] for k in ["seed", "init", "load", "fit", "sample", "statistics", "observable", "metric",
-                               "rotation", "save", "gradient", "eval", "kernel", "data"]}
+        """every PUBLIC function / method of the package is the root of exactly one class.  Writer classes are recognised
+        by NAME anywhere in the package (moving a function does not change its class); read-only classes are labelled by
+        name / location (they all share the same forbidden set); whatever matches no rule goes to `other`, which has the
+        strictest forbidden set (fail closed).  Private helpers (leading underscore) and nested functions are covered
+        through the public operations that reach them."""
+        ops = {k: [] for k in OPCLASS_COQ}
+        pk = self.package
         for f in self.fns:
             if f.kind != "function" or f.parent is not None:
                 continue
             rel = f.module.relpath.replace(os.sep, "/")
             n = f.simple
-            if rel == self.package + "/__init__.py":
-                if n == "set_random_seed":
-                    ops["seed"].append(f)
-                continue
-            if rel.startswith(self.package + "/nn_states/") or rel.startswith(self.package + "/rbm/"):
-                if f.cls is None:
-                    continue
-                if n in ("__init__", "initialize_parameters", "reinitialize_parameters"):
-                    ops["init"].append(f)
-                elif n in ("load", "autoload"):
-                    ops["load"].append(f)
-                elif n == "fit":
-                    ops["fit"].append(f)
-                elif n == "save":
-                    ops["save"].append(f)
-                elif n == "sample" or n == "gibbs_steps" or n.startswith("sample_") or n == "_shuffle_data":
-                    ops["sample"].append(f)
-                elif "grad" in n:
-                    ops["gradient"].append(f)
-                elif n.startswith("__") and n.endswith("__"):
-                    continue
-                else:
-                    ops["eval"].append(f)
-            elif rel.startswith(self.package + "/observables/"):
-                if n.startswith("statistics"):
-                    ops["statistics"].append(f)
-                else:
-                    ops["observable"].append(f)
-            elif rel == self.package + "/utils/training_statistics.py":
-                ops["metric"].append(f)
-            elif rel == self.package + "/utils/unitaries.py":
-                ops["rotation"].append(f)
-            elif rel == self.package + "/utils/cplx.py":
-                ops["kernel"].append(f)
-            elif rel == self.package + "/utils/gradients_utils.py":
+            dunder = n.startswith("__") and n.endswith("__")
+            if n.startswith("_") and not dunder and n not in ROOT_PRIVATE:
+                continue         # private helper: covered through the public operations that reach it
+            state_like = rel.startswith(pk + "/nn_states/") or rel.startswith(pk + "/rbm/") or \
+                (f.cls is not None and (self.is_module_class(f.cls) or self.is_state_class(f.cls)))
+            # ---- writer classes, by name
+            if n == "set_random_seed":
+                ops["seed"].append(f)
+            elif n in ("initialize_parameters", "reinitialize_parameters") or (n in ("__init__", "__new__") and state_like):
+                ops["init"].append(f)
+            elif n in ("load", "autoload") and f.cls is not None:
+                ops["load"].append(f)
+            elif n == "fit" and f.cls is not None:
+                ops["fit"].append(f)
+            # ---- read-only classes (labels only: same forbidden set)
+            elif dunder and n not in ("__init__", "__call__"):
+                continue         # reached implicitly from every function (pseudo-node <implicit-dunder-methods>)
+            elif n == "save" and state_like:
+                ops["save"].append(f)
+            elif state_like and (n == "sample" or n == "gibbs_steps" or n.startswith("sample_") or n == "_shuffle_data"):
+                ops["sample"].append(f)
+            elif "grad" in n and (state_like or rel == pk + "/utils/gradients_utils.py"):
                 ops["gradient"].append(f)
-            elif rel == self.package + "/utils/data.py":
+            elif state_like:
+                ops["eval"].append(f)
+            elif rel.startswith(pk + "/observables/"):
+                ops["statistics" if n.startswith("statistics") else "observable"].append(f)
+            elif rel == pk + "/utils/training_statistics.py":
+                ops["metric"].append(f)
+            elif rel == pk + "/utils/unitaries.py":
+                ops["rotation"].append(f)
+            elif rel == pk + "/utils/cplx.py":
+                ops["kernel"].append(f)
+            elif rel == pk + "/utils/data.py":
                 ops["data"].append(f)
+            else:
+                ops["other"].append(f)          # callbacks, utils/__init__, any new module: strictest class
         return ops
+
+    def is_state_class(self, c):
+        anc, _ok = self.ancestors(c)
+        return any(cc.name == "NeuralStateBase" for cc in [c] + anc)
 
 
 VIEW_OK_TARGET_ATTRS = {"grad", "requires_grad"}
+# private functions that are nevertheless operations of their own (called across modules / by the checks)
+ROOT_PRIVATE = {"_shuffle_data", "_kron_mult", "_rotate_basis_state", "_convert_basis_element_to_index",
+                "_single_basis_KL", "_update_statistics"}
+
+
+def bound_mutated_roots(g, offset, binding):
+    return bound_roots(g, offset, binding, g.mutated_roots)
+
+
+def bound_roots(g, offset, binding, M):
+    """roots of the actual arguments of one call that are bound to formal parameters which callee g mutates in place.
+    binding = {"pos": [(starred?, roots)], "kw": {name: roots}, "starstar": roots};  offset = 1 when the receiver is bound
+    to g's first parameter (method call on an instance).  Anything ambiguous (star-args) is bound to every mutated formal."""
+    M = set(M) - {"PARAM", "MODULE"}
+    if not M:
+        return set()
+    out = set()
+    for i, (starred, roots) in enumerate(binding["pos"]):
+        if not roots:
+            continue
+        if starred:
+            out |= roots
+            continue
+        j = i + offset
+        formal = g.params[j] if j < len(g.params) else g.vararg
+        if formal is None or formal in M:
+            out |= roots
+    for name, roots in binding["kw"].items():
+        if not roots:
+            continue
+        if name in g.all_params:
+            if name in M:
+                out |= roots
+        elif g.kwarg is None or g.kwarg in M:
+            out |= roots
+    if binding["starstar"]:
+        out |= binding["starstar"]
+    return out
 
 
 class FnVisitor:
@@ -588,6 +711,7 @@ class FnVisitor:
         self.locals = set()
         self.taint = {}          # local name -> set of roots ('PARAM' | own parameter names)
         self.settyped = set()    # local names holding a set
+        self.bind_kinds = {}     # local name -> set of {"container", "other"} over all its bindings
         self.set_ok = set()      # id() of set-typed expression nodes used in a harmless position
 
     # ------------------------------------------------------------ scope
@@ -622,8 +746,9 @@ class FnVisitor:
                     continue
                 stack.append(ch)
 
-    def run(self):
+    def prepare(self):
         fn, node = self.fn, self.fn.node
+        self.body, self.extra = [], []
         if node is None:
             return
         body = self.body_nodes()
@@ -662,8 +787,63 @@ class FnVisitor:
             for st in self.tr.nested_defs(node):
                 self.locals.add(st.name)
         fn.scope_locals = set(self.locals)
-        self.compute_taint(body)
-        for n in self.walk_scope(body + extra):
+        self.body, self.extra = body, extra
+        self.own_names = set(fn.all_params)
+        for n in self.walk_scope(body):
+            if isinstance(n, ast.Name) and isinstance(n.ctx, (ast.Store, ast.Del)):
+                self.own_names.add(n.id)
+            elif isinstance(n, ast.arg):
+                self.own_names.add(n.arg)
+
+    def retaint(self):
+        # free variables of a nested function carry the taint they have in the enclosing function
+        p = self.fn.parent
+        if p is not None and p in self.tr.visitors:
+            pv = self.tr.visitors[p]
+            for name, r in pv.taint.items():
+                if name not in self.own_names and r:
+                    self.taint.setdefault(name, set()).update(r)
+            for name in pv.settyped:
+                if name not in self.own_names:
+                    self.settyped.add(name)
+        self.compute_taint(self.body)
+
+    def update_summaries(self):
+        """return-value summary of this function and attribute aliases it creates; True if something is new."""
+        fn, tr = self.fn, self.tr
+        changed = False
+        for n in self.walk_scope(self.body):
+            if isinstance(n, ast.Return) and n.value is not None:
+                new = (self.roots(n.value) & ({"PARAM", "MODULE"} | fn.own_mutable_params)) - fn.returns
+                if new and fn.kind == "function":
+                    fn.returns |= new
+                    changed = True
+            elif isinstance(n, (ast.Yield, ast.YieldFrom)) and n.value is not None and fn.kind == "function":
+                new = (self.roots(n.value) & ({"PARAM", "MODULE"} | fn.own_mutable_params)) - fn.returns
+                if new:
+                    fn.returns |= new
+                    changed = True
+            elif isinstance(n, (ast.Assign, ast.AnnAssign)) and getattr(n, "value", None) is not None:
+                targets = n.targets if isinstance(n, ast.Assign) else [n.target]
+                for t in targets:
+                    for a in ast.walk(t):
+                        if isinstance(a, ast.Attribute) and isinstance(a.ctx, ast.Store) and a.attr not in ("data", "grad"):
+                            r = self.roots(n.value)
+                            if "PARAM" in r and a.attr not in tr.param_attrs and a.attr not in tr.alias_attrs:
+                                tr.alias_attrs.add(a.attr)
+                                changed = True
+                            if "MODULE" in r and a.attr not in tr.module_attrs:
+                                tr.module_attrs.add(a.attr)
+                                changed = True
+                            if self.is_set(n.value) and a.attr not in tr.set_attrs:
+                                tr.set_attrs.add(a.attr)
+                                changed = True
+        return changed
+
+    def emit(self):
+        if self.fn.node is None:
+            return
+        for n in self.walk_scope(self.body + self.extra):
             self.visit(n)
 
     def decorators(self, node):
@@ -733,11 +913,19 @@ class FnVisitor:
             r = set(self.taint.get(e.id, ()))
             if e.id in self.fn.own_mutable_params:
                 r.add(e.id)
+            fn = self.fn
+            if fn.cls is not None and fn.params and e.id == fn.params[0] and not fn.is_static and tr.is_module_class(fn.cls):
+                r.add("MODULE")                  # `self` inside a method of an nn.Module subclass
             return r
         if isinstance(e, ast.Attribute):
-            r = self.roots(e.value)
-            if e.attr in tr.param_attrs:
+            r = self.roots(e.value) - {"MODULE"}
+            if e.attr in tr.param_attrs or e.attr in tr.alias_attrs:
                 r = r | {"PARAM"}
+            if e.attr in tr.module_attrs:
+                r = r | {"MODULE"}
+            for g in tr.by_name.get(e.attr, ()):     # a property whose getter returns a parameter / module
+                if g.is_property:
+                    r = r | g.returns
             return r
         if isinstance(e, (ast.Subscript, ast.Starred)):
             return self.roots(e.value)
@@ -791,8 +979,12 @@ class FnVisitor:
                     if isinstance(a1, ast.Constant) and isinstance(a1.value, str):
                         if a1.value in self.tr.param_attrs:
                             r = r | {"PARAM"}
+                        if a1.value in self.tr.alias_attrs:
+                            r = r | {"PARAM"}
+                        if a1.value in self.tr.module_attrs:
+                            r = r | {"MODULE"}
                     elif not self.is_module_expr(call.args[0]):
-                        r = r | {"PARAM"}        # could be any attribute, a parameter included
+                        r = r | {"PARAM", "MODULE"}   # could be any attribute: a parameter or a network included
                     return r
                 return self.args_roots(call)
             r = self.resolve_name(f.id, [])
@@ -801,7 +993,9 @@ class FnVisitor:
             if r[0] == "ext":
                 return self.ext_call_roots(r[1], call, out_kw)
             if r[0] in ("fn",):
-                return self.args_roots(call)
+                return self.result_roots([(r[1], 0)], call)
+            if r[0] == "class" and self.tr.is_module_class(r[1]):
+                return {"MODULE"}    # a freshly built network (marks the attribute it is stored in as a module attribute)
             return set()         # constructor of a package class: fresh object
         if isinstance(f, ast.Attribute):
             ch = self.tr.attr_chain(f)
@@ -811,9 +1005,9 @@ class FnVisitor:
                     if r[0] == "ext":
                         return self.ext_call_roots(r[1], call, out_kw)
                     if r[0] == "fn":
-                        return self.args_roots(call)
+                        return self.result_roots([(r[1], 0)], call)
                     if r[0] == "class" and not r[2]:
-                        return set()
+                        return {"MODULE"} if self.tr.is_module_class(r[1]) else set()
             m = f.attr
             recv = self.roots(f.value)
             if m in ("parameters", "named_parameters", "state_dict", "buffers", "children", "modules"):
@@ -821,9 +1015,29 @@ class FnVisitor:
             if m in FRESH_METHODS:
                 return set()
             if m in self.tr.by_name:
-                return recv | self.args_roots(call)
+                # sound default: the result may alias the receiver or any argument, and whatever a callee of that name
+                # is known to return (parameters reached through self, e.g. a helper returning self.parameters())
+                cands = [(g, 0 if (g.is_static or g.cls is None) else 1) for g in self.tr.by_name[m]]
+                return (recv - {"MODULE"}) | self.result_roots(cands, call)
             return recv
         return set()
+
+    def call_binding(self, call):
+        return {"pos": [(isinstance(a, ast.Starred), self.roots(a)) for a in call.args],
+                "kw": {k.arg: self.roots(k.value) for k in call.keywords if k.arg is not None},
+                "starstar": set().union(*[self.roots(k.value) for k in call.keywords if k.arg is None] or [set()])}
+
+    def result_roots(self, cands, call):
+        """what the value returned by a call of a package function may alias: the markers the callee returns by itself
+        (a parameter / network reached through self) and the actual arguments bound to the formals its return value may
+        alias (return-value summaries, computed in the interprocedural fixpoint; a callee that only returns fresh tensors
+        contributes nothing)."""
+        binding = self.call_binding(call)
+        out = set()
+        for g, off in cands:
+            out |= g.returns & {"PARAM", "MODULE"}
+            out |= bound_roots(g, off, binding, g.returns)
+        return out - {"MODULE"} | {m for g, _ in cands for m in g.returns if m == "MODULE"}
 
     def ext_call_roots(self, dotted, call, out_kw):
         if out_kw:
@@ -857,7 +1071,7 @@ class FnVisitor:
                 elif isinstance(n, ast.AnnAssign) and n.value is not None:
                     self.bind(n.target, n.value)
                 elif isinstance(n, ast.AugAssign):
-                    self.bind(n.target, n.value)
+                    self.bind(n.target, n.value, aug=True)
                 elif isinstance(n, (ast.For, ast.AsyncFor)):
                     self.bind(n.target, n.iter, elementwise=True)
                 elif isinstance(n, ast.comprehension):
@@ -869,7 +1083,40 @@ class FnVisitor:
             if before == self.taint and sbefore == self.settyped:
                 break
 
-    def bind(self, target, value, elementwise=False):
+    def is_container_expr(self, e):
+        """an expression that certainly evaluates to a fresh dict / list (a container, not a tensor)."""
+        if isinstance(e, (ast.Dict, ast.DictComp, ast.List, ast.ListComp)):
+            return True
+        if isinstance(e, ast.IfExp):
+            return self.is_container_expr(e.body) and self.is_container_expr(e.orelse)
+        if isinstance(e, ast.Call):
+            f = e.func
+            if isinstance(f, ast.Name) and f.id in ("dict", "list") and f.id not in self.locals and f.id not in self.aliases:
+                return True
+            ch = self.tr.attr_chain(f)
+            if ch is not None:
+                r = self.resolve_name(ch[0], ch[1])
+                if r is not None and r[0] == "ext" and r[1] in ("collections.OrderedDict", "collections.defaultdict"):
+                    return True
+            if isinstance(f, ast.Attribute):
+                if f.attr == "state_dict":
+                    return True
+                if f.attr == "copy" and isinstance(f.value, ast.Name) and self.is_container_name(f.value.id):
+                    return True
+        return False
+
+    def is_container_name(self, name):
+        kinds = self.bind_kinds.get(name)
+        return bool(kinds) and kinds == {"container"} and name not in self.fn.all_params
+
+    def bind(self, target, value, elementwise=False, aug=False):
+        if isinstance(target, ast.Name) and not aug:
+            self.bind_kinds.setdefault(target.id, set()).add(
+                "container" if (not elementwise and self.is_container_expr(value)) else "other")
+        elif not isinstance(target, ast.Name):
+            for t in ast.walk(target):
+                if isinstance(t, ast.Name) and isinstance(t.ctx, ast.Store):
+                    self.bind_kinds.setdefault(t.id, set()).add("other")
         r = self.roots(value)
         st = (not elementwise) and self.is_set(value)
         for t in ast.walk(target):
@@ -885,6 +1132,8 @@ class FnVisitor:
             return True
         if isinstance(e, ast.Name):
             return e.id in self.settyped
+        if isinstance(e, ast.Attribute) and isinstance(e.ctx, ast.Load):
+            return e.attr in self.tr.set_attrs
         if isinstance(e, ast.Call):
             f = e.func
             if isinstance(f, ast.Name) and f.id in ("set", "frozenset") and f.id not in self.locals and f.id not in self.aliases:
@@ -914,6 +1163,8 @@ class FnVisitor:
 
     def store_target(self, t, line, aug=False):
         if isinstance(t, ast.Subscript):
+            if not aug and isinstance(t.value, ast.Name) and self.is_container_name(t.value.id):
+                return           # d[k] = v on a dict / list built in this function: a container update, not a tensor write
             self.mutation(self.roots(t.value), line, "subscript assignment to a parameter-rooted tensor")
         elif isinstance(t, ast.Attribute):
             if t.attr in self.tr.param_attrs:
@@ -999,6 +1250,8 @@ class FnVisitor:
                 fn.add(a, n.lineno, "builtin " + name)
         elif name in PURE_BUILTINS:
             return
+        elif isinstance(getattr(builtins, name, None), type) and issubclass(getattr(builtins, name), BaseException):
+            return
         elif hasattr(builtins, name):
             fn.add(U("builtin:" + name), n.lineno, "builtin not in the pure table")
         else:
@@ -1083,7 +1336,7 @@ class FnVisitor:
                     if r[0] == "class":
                         self.constructor_edges(r[1], line)
                     elif r[0] == "fn":
-                        target_fns.append(r[1])
+                        target_fns.append((r[1], 0))
                     elif r[0] == "ext":
                         self.ext_call(r[1], call)
                 elif name in ("set", "frozenset"):
@@ -1095,6 +1348,12 @@ class FnVisitor:
                     fn.add(U("builtin:" + name), line, "dynamic attribute write")
                 elif name == "getattr" and call.args and self.is_module_expr(call.args[0]):
                     fn.add(U("construct:getattr-on-module"), line, "dynamic lookup in a module")
+                elif name == "getattr" and len(call.args) >= 2:
+                    a1 = call.args[1]
+                    if isinstance(a1, ast.Constant) and isinstance(a1.value, str):
+                        self.by_name_edges(a1.value)          # like the attribute access  obj.<name>
+                    else:
+                        fn.callees.add(tr.any_property)      # evaluating a dynamic attribute may run any property getter
         elif isinstance(f, ast.Attribute):
             ch = tr.attr_chain(f)
             resolved = None
@@ -1104,7 +1363,7 @@ class FnVisitor:
                 if resolved[0] == "ext":
                     self.ext_call(resolved[1], call)
                 elif resolved[0] == "fn" and not resolved[2]:
-                    target_fns.append(resolved[1])
+                    target_fns.append((resolved[1], 0))
                 elif resolved[0] == "class" and not resolved[2]:
                     self.constructor_edges(resolved[1], line)
                 else:
@@ -1116,6 +1375,26 @@ class FnVisitor:
             ok = False
             if isinstance(inner, ast.Name) and inner.id == "super":
                 ok = True
+            elif isinstance(inner, ast.Name) and inner.id == "getattr" and "getattr" not in self.locals \
+                    and len(f.args) >= 2 and not self.is_module_expr(f.args[0]):
+                # getattr(obj, name)(...): dynamic method dispatch
+                ok = True
+                names = self.dynamic_names(f.args[1])
+                if names is None:
+                    fn.callees.add(tr.any_method)
+                    target_fns.extend((g, 0 if (g.is_static or g.cls is None) else 1) for g in tr.any_method.callees)
+                else:
+                    for nm in sorted(names):
+                        self.by_name_edges(nm)
+                        if nm in tr.inst_attr_assigners:
+                            fn.callees.update(tr.inst_attr_assigners[nm])
+                        if nm in PARAMWRITE_METHODS:
+                            fn.add("ParamWrite", line, "dynamic method ." + nm + "()")
+                        if nm in RNG_METHODS:
+                            fn.add("RngTorch", line, "dynamic method ." + nm + "()")
+                        if not tr.by_name.get(nm) and nm not in tr.inst_attr_assigners and nm not in tr.known_attrs:
+                            fn.add(U("method:" + nm), line, "dynamically dispatched method of unknown type")
+                        target_fns.extend((g, 0 if (g.is_static or g.cls is None) else 1) for g in tr.by_name.get(nm, []))
             else:
                 ch = tr.attr_chain(inner)
                 if ch is not None:
@@ -1132,9 +1411,9 @@ class FnVisitor:
             fn.add(U("construct:call-" + type(f).__name__), line, "call of an expression that is not understood")
         # ---- argument mutation through package functions
         if target_fns:
-            roots = self.args_roots(call)
-            if roots:
-                fn.pending_arg_mut.append((target_fns, roots, line))
+            binding = self.call_binding(call)
+            if any(r for _s, r in binding["pos"]) or any(binding["kw"].values()) or binding["starstar"]:
+                fn.pending_arg_mut.append((target_fns, binding, line))
         # ---- star-args / consumers of sets
         if isinstance(f, ast.Attribute) and f.attr in ("union", "intersection", "difference", "symmetric_difference",
                                                        "issubset", "issuperset", "isdisjoint", "add", "discard",
@@ -1143,10 +1422,45 @@ class FnVisitor:
             for a in call.args:
                 self.mark_set_ok(a)
 
+    def dynamic_names(self, e):
+        """the attribute names a dynamic getattr may look up: a string constant, or a parameter of a PRIVATE function
+        all of whose call sites in the package pass a string constant; None = unknown (any method)."""
+        if isinstance(e, ast.Constant) and isinstance(e.value, str):
+            return {e.value}
+        fn = self.fn
+        if not (isinstance(e, ast.Name) and fn.kind == "function" and e.id in fn.params):
+            return None
+        if not (fn.simple.startswith("_") and not fn.simple.startswith("__")):
+            return None              # a public function can be called with any name from outside
+        for n in self.walk_scope(self.body_nodes()):
+            if isinstance(n, ast.Name) and n.id == e.id and isinstance(n.ctx, (ast.Store, ast.Del)):
+                return None          # the parameter is re-bound in the body
+        sites = self.tr.call_sites.get(fn.simple, [])
+        if not sites:
+            return None
+        idx = fn.params.index(e.id)
+        out = set()
+        for c in sites:
+            if any(isinstance(a, ast.Starred) for a in c.args[:idx + 1]) or any(k.arg is None for k in c.keywords):
+                return None
+            arg = None
+            for k in c.keywords:
+                if k.arg == e.id:
+                    arg = k.value
+            if arg is None:
+                off = 1 if (fn.cls is not None and not fn.is_static and isinstance(c.func, ast.Attribute)) else 0
+                j = idx - off
+                if 0 <= j < len(c.args):
+                    arg = c.args[j]
+            if not (isinstance(arg, ast.Constant) and isinstance(arg.value, str)):
+                return None
+            out.add(arg.value)
+        return out
+
     def ext_call(self, dotted, call):
         """call of an external function: in-place functions (name ends with _) mutate their arguments."""
         last = dotted.split(".")[-1]
-        if last.endswith("_") and not last.endswith("__"):
+        if (last.endswith("_") and not last.endswith("__")) or last in EXT_MUTATORS:
             self.mutation(self.args_roots(call), call.lineno, "in-place function %s on a parameter" % dotted)
 
     def method_call(self, call, f, target_fns):
@@ -1161,20 +1475,20 @@ class FnVisitor:
             multi = sum(1 for k, _ in fn.cls.bases if k == "pkg") > 1
             if ok and not multi:
                 fn.callees.update(found)
-                target_fns.extend(found)
+                target_fns.extend((g, 0 if g.is_static else 1) for g in found)
             else:
                 # a base class is not understood (or multiple package bases): fall back to every method of that name,
                 # unless all the non-package bases are whitelisted externals
                 if not ok:
                     self.by_name_edges(m)
-                    target_fns.extend(tr.by_name.get(m, []))
+                    target_fns.extend((g, 0 if (g.is_static or g.cls is None) else 1) for g in tr.by_name.get(m, []))
                 else:
                     fn.callees.update(found)
-                    target_fns.extend(found)
+                    target_fns.extend((g, 0 if g.is_static else 1) for g in found)
             f._inner = True      # do not add the by-name edges for this attribute again
             return
         cands = list(tr.by_name.get(m, []))
-        target_fns.extend(cands)
+        target_fns.extend((g, 0 if (g.is_static or g.cls is None) else 1) for g in cands)
         # classes addressed as attributes  (module.Class(...))
         for c in tr.cls_by_name.get(m, []):
             self.constructor_edges(c, line)
@@ -1182,6 +1496,12 @@ class FnVisitor:
             fn.add("RngTorch", line, "method ." + m + "()")
         if m in PARAMWRITE_METHODS:
             fn.add("ParamWrite", line, "method ." + m + "()")
+        if m in MODULE_CAST_METHODS and "MODULE" in self.roots(recv):
+            fn.add("ParamWrite", line, "nn.Module method .%s() rewrites the parameters of a network" % m)
+        if m in RESEED_METHODS and not cands:
+            fn.add("RngReseed", line, "method ." + m + "()")
+        if m in STAT_METHODS and not cands:
+            fn.add("Clock", line, "method ." + m + "() (file times)")
         if m in FILEWRITE_METHODS and not cands:
             fn.add("FileWrite", line, "method ." + m + "()")
         if (m.endswith("_") and not m.endswith("__")) or m in INPLACE_EXTRA:
@@ -1243,8 +1563,9 @@ def translate(repo, package="qucumber"):
 
 OPCLASS_COQ = {"seed": "OSeed", "init": "OInit", "load": "OLoad", "fit": "OFit", "sample": "OSample",
                "statistics": "OStatistics", "observable": "OObservable", "metric": "OMetric", "rotation": "ORotation",
-               "save": "OSave", "gradient": "OGradient", "eval": "OEval", "kernel": "OKernel", "data": "OData"}
-READ_ONLY = ["sample", "statistics", "observable", "metric", "rotation", "save", "gradient", "eval", "kernel", "data"]
+               "save": "OSave", "gradient": "OGradient", "eval": "OEval", "kernel": "OKernel", "data": "OData",
+               "other": "OOther"}
+READ_ONLY = ["sample", "statistics", "observable", "metric", "rotation", "save", "gradient", "eval", "kernel", "data", "other"]
 WRITERS = ["seed", "init", "load", "fit"]
 
 
@@ -1275,6 +1596,7 @@ def render_coq(model):
     out.append("Definition ops_read_only : list positive := %s." % " ++ ".join("ops_" + k for k in READ_ONLY))
     out.append("Definition ops_writers : list positive := %s." % " ++ ".join("ops_" + k for k in WRITERS))
     out.append("Definition ops_public : list positive := ops_writers ++ ops_read_only.")
+    out.append("Definition ops_unseeded : list positive := %s ++ ops_read_only." % " ++ ".join("ops_" + k for k in WRITERS if k != "seed"))
     out.append("Definition ops_by_class : list (opclass * list positive) := [%s]." %
                "; ".join("(%s, ops_%s)" % (c, k) for k, c in OPCLASS_COQ.items()))
     out.append("Definition source_digest : name := %s." % coq_string(model["digest"]))
@@ -1343,6 +1665,12 @@ def violations(model):
                 e["class"] = k
                 e["theorem"] = "no foreign source"
                 out.append(e)
+            if k != "seed":
+                e = explain(model, i, lambda a: a == "RngReseed")
+                if e:
+                    e["class"] = k
+                    e["theorem"] = "only the seeding operation re-seeds the torch generator"
+                    out.append(e)
             if k in READ_ONLY:
                 e = explain(model, i, is_param_write)
                 if e:
